@@ -74,6 +74,16 @@ func opRegisterEnv(t *testing.T) {
 	}
 }
 
+// opScratchTmp points TMPDIR at the per-run scratch directory (removed by the
+// driver) so that the embedded etcd's data dir and /tmp/etcd-test-*.log do not pile up in /tmp.
+func opScratchTmp(t *testing.T) {
+	if d := os.Getenv("VERIF_SCRATCH"); d != "" {
+		if st, err := os.Stat(d); err == nil && st.IsDir() {
+			t.Setenv("TMPDIR", d)
+		}
+	}
+}
+
 // opSetEnv makes the operator environment exactly env (other operator variables unset).
 func opSetEnv(env map[string]string) {
 	for _, k := range opEnvKeys {
